@@ -254,9 +254,18 @@ func derivedFromParam(v ssa.Value) *ssa.Parameter {
 }
 
 func comparedAt(b *ssa.BasicBlock, v ssa.Value) (upper, lower bool) {
-	for _, g := range GuardsOf(b) {
+	return comparedUnder(GuardsOf(b), v)
+}
+
+// comparedUnder: which bounds of v do the guards establish?
+func comparedUnder(guards []Guard, v ssa.Value) (upper, lower bool) {
+	for _, g := range guards {
 		bo, ok := g.Cond.(*ssa.BinOp)
 		if !ok {
+			continue
+		}
+		if validatedByCall(bo, g.Outcome, v) {
+			upper = true
 			continue
 		}
 		var other ssa.Value
@@ -288,6 +297,189 @@ func comparedAt(b *ssa.BasicBlock, v ssa.Value) (upper, lower bool) {
 		}
 	}
 	return
+}
+
+// validatedByCall: the guard is `f(..., v, ...) == nil` (taken on the nil
+// side) where f is a validator: a function that returns a nil error only when
+// the corresponding argument is below a length (see validatorSummary).
+func validatedByCall(bo *ssa.BinOp, outcome bool, v ssa.Value) bool {
+	x, nonNil, ok := NilCheck(bo)
+	if !ok || nonNil == outcome {
+		return false
+	}
+	if ex, isEx := x.(*ssa.Extract); isEx {
+		x = ex.Tuple
+	}
+	call, ok := x.(*ssa.Call)
+	if !ok {
+		return false
+	}
+	f := call.Call.StaticCallee()
+	if f == nil {
+		return false
+	}
+	sum := validatorSummary(f)
+	for i, a := range call.Call.Args {
+		if !sum[i] {
+			continue
+		}
+		if a == v {
+			return true
+		}
+		// variadic: a is `slice t[:]` of a fresh array whose slots were stored
+		if sl, isSl := a.(*ssa.Slice); isSl {
+			if al, isAl := sl.X.(*ssa.Alloc); isAl && al.Referrers() != nil {
+				for _, r := range *al.Referrers() {
+					ia, isIA := r.(*ssa.IndexAddr)
+					if !isIA || ia.Referrers() == nil {
+						continue
+					}
+					for _, r2 := range *ia.Referrers() {
+						if st, isSt := r2.(*ssa.Store); isSt && st.Val == v {
+							return true
+						}
+					}
+				}
+			}
+		}
+	}
+	return false
+}
+
+var validatorMemo = map[*ssa.Function]map[int]bool{}
+
+// validatorSummary: the parameters of fn (an error-returning function) that
+// are proved below a length whenever fn returns a nil error. For an []int
+// parameter the claim is about every element. Every return must either carry
+// the nil constant (and then the bound must hold on that path) or a freshly
+// made, hence non-nil, error.
+func validatorSummary(fn *ssa.Function) map[int]bool {
+	if s, ok := validatorMemo[fn]; ok {
+		return s
+	}
+	out := map[int]bool{}
+	validatorMemo[fn] = out
+	res := fn.Signature.Results()
+	if fn.Blocks == nil || res.Len() == 0 || res.At(res.Len()-1).Type().String() != "error" {
+		return out
+	}
+	var nilRets []*ssa.BasicBlock
+	for _, b := range fn.Blocks {
+		ret, ok := b.Instrs[len(b.Instrs)-1].(*ssa.Return)
+		if !ok {
+			continue
+		}
+		e := ret.Results[len(ret.Results)-1]
+		if IsNilConst(e) {
+			nilRets = append(nilRets, b)
+			continue
+		}
+		if !freshError(e) {
+			return out
+		}
+	}
+	if len(nilRets) == 0 {
+		return out
+	}
+	for i, p := range fn.Params {
+		switch {
+		case isInt(p.Type()):
+			ok := true
+			for _, b := range nilRets {
+				if up, _ := comparedAt(b, p); !up {
+					ok = false
+				}
+			}
+			if ok {
+				out[i] = true
+			}
+		case isIntSlice(p.Type()):
+			if everyElementBounded(fn, p, nilRets) {
+				out[i] = true
+			}
+		}
+	}
+	return out
+}
+
+func isIntSlice(t types.Type) bool {
+	sl, ok := t.Underlying().(*types.Slice)
+	return ok && isInt(sl.Elem())
+}
+
+// freshError: a value that is certainly a non-nil error.
+func freshError(v ssa.Value) bool {
+	switch x := v.(type) {
+	case *ssa.MakeInterface:
+		return true
+	case *ssa.Call:
+		if f := x.Call.StaticCallee(); f != nil {
+			n := f.String()
+			return n == "fmt.Errorf" || n == "errors.New"
+		}
+	}
+	return false
+}
+
+// everyElementBounded: fn ranges over its slice parameter p; on every way round
+// the loop the element was found below a length; the loop is left, other than
+// through its header (all elements visited), only into fresh-error returns;
+// and the nil returns lie behind the loop.
+func everyElementBounded(fn *ssa.Function, p *ssa.Parameter, nilRets []*ssa.BasicBlock) bool {
+	for _, l := range RangeLoops(fn) {
+		if l.IsMap || l.Over != ssa.Value(p) {
+			continue
+		}
+		loop := LoopBlocks(l.Header)
+		// the element: loads of &p[key] inside the loop
+		var elems []ssa.Value
+		for b := range loop {
+			for _, in := range b.Instrs {
+				ld, ok := in.(*ssa.UnOp)
+				if !ok || ld.Op != token.MUL {
+					continue
+				}
+				if ia, isIA := ld.X.(*ssa.IndexAddr); isIA && ia.X == ssa.Value(p) && ia.Index == l.Key {
+					elems = append(elems, ld)
+				}
+			}
+		}
+		if len(elems) == 0 {
+			continue
+		}
+		ok := true
+		for b := range loop {
+			for _, succ := range b.Succs {
+				if succ == l.Header && b != l.Header {
+					// latch: some load of the element is bounded here
+					bounded := false
+					for _, e := range elems {
+						if up, _ := comparedUnder(append(GuardsOf(b), guardOfEdge(b, succ)...), e); up {
+							bounded = true
+						}
+					}
+					if !bounded {
+						ok = false
+					}
+				}
+				if !loop[succ] && b != l.Header {
+					ret, isRet := succ.Instrs[len(succ.Instrs)-1].(*ssa.Return)
+					if !isRet || !freshError(ret.Results[len(ret.Results)-1]) {
+						ok = false
+					}
+				}
+			}
+		}
+		for _, nb := range nilRets {
+			if loop[nb] || !l.Header.Dominates(nb) {
+				ok = false
+			}
+		}
+		if ok {
+			return true
+		}
+	}
+	return false
 }
 
 // isLenLike: len(x) or a call of a method named Len / MaxValue, or a value
@@ -474,6 +666,180 @@ func (ri *rawIndex) sanitised(v ssa.Value, at *ssa.BasicBlock, seen map[ssa.Valu
 	return false, "value of unknown range used as a line index"
 }
 
+// nonNegative: is v >= 0 by construction? The counterpart of sanitised for the
+// lower end of an index. at is the block in which v is used.
+func nonNegative(v ssa.Value, at *ssa.BasicBlock, seen map[ssa.Value]bool) (bool, string) {
+	if seen[v] {
+		return true, "" // a cycle through a loop phi: decided by the other edges
+	}
+	seen[v] = true
+	if k, ok := ConstInt(v); ok {
+		if k >= 0 {
+			return true, ""
+		}
+		return false, fmt.Sprintf("the constant %d is used as an index", k)
+	}
+	if _, lo := comparedAt(at, v); lo {
+		return true, ""
+	}
+	if b, ok := v.Type().Underlying().(*types.Basic); ok && b.Info()&types.IsUnsigned != 0 {
+		return true, ""
+	}
+	switch x := v.(type) {
+	case *ssa.Call:
+		if bi, ok := x.Call.Value.(*ssa.Builtin); ok && (bi.Name() == "len" || bi.Name() == "cap") {
+			return true, ""
+		}
+		name := ""
+		if f := x.Call.StaticCallee(); f != nil {
+			name = f.Name()
+		} else if x.Call.IsInvoke() {
+			name = x.Call.Method.Name()
+		}
+		switch name {
+		case "Len", "Value", "Line", "MaxValue", "MinLines", "MaxLines", "Idx":
+			return true, "" // lengths, cursor positions, listing positions
+		}
+		return false, "the result of " + callName(x) + " may be negative"
+	case *ssa.Convert:
+		return nonNegative(x.X, at, seen)
+	case *ssa.BinOp:
+		switch x.Op {
+		case token.ADD, token.MUL, token.QUO:
+			if ok, why := nonNegative(x.X, at, seen); !ok {
+				return false, why
+			}
+			return nonNegative(x.Y, at, seen)
+		case token.REM:
+			return nonNegative(x.X, at, seen)
+		case token.SUB:
+			// x - y with a guard x >= y (or y <= x) in force, or y a constant
+			// and x compared >= that constant
+			for _, g := range GuardsOf(at) {
+				bo, ok := g.Cond.(*ssa.BinOp)
+				if !ok {
+					continue
+				}
+				ge := (bo.Op == token.GEQ && g.Outcome) || (bo.Op == token.LSS && !g.Outcome) || (bo.Op == token.GTR && g.Outcome) || (bo.Op == token.LEQ && !g.Outcome)
+				le := (bo.Op == token.LEQ && g.Outcome) || (bo.Op == token.GTR && !g.Outcome) || (bo.Op == token.LSS && g.Outcome) || (bo.Op == token.GEQ && !g.Outcome)
+				if ge && SameValue(bo.X, x.X) && SameValue(bo.Y, x.Y) {
+					return true, ""
+				}
+				if le && SameValue(bo.X, x.Y) && SameValue(bo.Y, x.X) {
+					return true, ""
+				}
+			}
+			return false, "the difference " + x.X.Name() + " - " + x.Y.Name() + " may be negative: nothing on this path compares the two"
+		}
+		return false, "a computed value may be negative"
+	case *ssa.Phi:
+		for i, e := range x.Edges {
+			pred := x.Block().Preds[i]
+			// clamp idiom: the value arrives over an edge on which e >= 0 holds
+			if _, lo := comparedUnder(append(GuardsOf(pred), guardOfEdge(pred, x.Block())...), e); lo {
+				continue
+			}
+			if ok, why := nonNegative(e, pred, seen); !ok {
+				return false, why
+			}
+		}
+		return true, ""
+	case *ssa.Extract:
+		return nonNegative(x.Tuple, at, seen)
+	case *ssa.TypeAssert:
+		if min, ok := userArgMin(x); ok && min >= 0 {
+			return true, ""
+		}
+		return false, "a user-supplied number may be negative (its argument parser does not enforce a minimum >= 0)"
+	case *ssa.Parameter:
+		return false, "parameter " + x.Name() + " may be negative"
+	case *ssa.UnOp:
+		if n, _, ok := FieldNameOfLoad(x); ok && (n == "value" || n == "maxValue") {
+			return true, ""
+		}
+		return false, "a loaded value may be negative"
+	}
+	return false, "a value of unknown sign is used as an index"
+}
+
+// cmdLits is the command table of the UI (set by checkLineIndices).
+var cmdLits []*cmdLit
+
+// userArgMin: ta is args[k].(int) inside the Action of a command whose k-th
+// argument parser is cmdtools.ParseNum(min, max) with a constant min, and
+// ParseNum's closure returns a value only on the edge where v < min is false.
+func userArgMin(ta *ssa.TypeAssert) (int64, bool) {
+	ld, ok := ta.X.(*ssa.UnOp)
+	if !ok {
+		return 0, false
+	}
+	ia, ok := ld.X.(*ssa.IndexAddr)
+	if !ok {
+		return 0, false
+	}
+	k, ok := ConstInt(ia.Index)
+	if !ok {
+		return 0, false
+	}
+	fn := ta.Parent()
+	if len(fn.Params) == 0 || Unwrap(ia.X) != ssa.Value(fn.Params[len(fn.Params)-1]) {
+		return 0, false
+	}
+	for _, cl := range cmdLits {
+		if cl.Action != fn || int(k) >= len(cl.Args) {
+			continue
+		}
+		call, ok := Unwrap(cl.Args[k]).(*ssa.Call)
+		if !ok {
+			return 0, false
+		}
+		f := call.Call.StaticCallee()
+		if f == nil || f.Name() != "ParseNum" || len(call.Call.Args) != 2 || !parseNumEnforcesMin(f) {
+			return 0, false
+		}
+		return ConstInt(call.Call.Args[0])
+	}
+	return 0, false
+}
+
+// parseNumEnforcesMin: the closure returned by ParseNum returns a nil error
+// only where `v < min` (min the captured first parameter) is false.
+func parseNumEnforcesMin(f *ssa.Function) bool {
+	if len(f.AnonFuncs) != 1 {
+		return false
+	}
+	cl := f.AnonFuncs[0]
+	found := false
+	for _, b := range cl.Blocks {
+		ret, ok := b.Instrs[len(b.Instrs)-1].(*ssa.Return)
+		if !ok || len(ret.Results) != 2 || !IsNilConst(ret.Results[1]) {
+			continue
+		}
+		okRet := false
+		for _, g := range GuardsOf(b) {
+			bo, isBin := g.Cond.(*ssa.BinOp)
+			if !isBin {
+				continue
+			}
+			isMin := func(v ssa.Value) bool {
+				return DependsOn(v, func(w ssa.Value) bool {
+					fv, ok := w.(*ssa.FreeVar)
+					return ok && fv.Name() == f.Params[0].Name()
+				})
+			}
+			if (bo.Op == token.LSS && isMin(bo.Y) && !g.Outcome) || (bo.Op == token.GEQ && isMin(bo.Y) && g.Outcome) ||
+				(bo.Op == token.GTR && isMin(bo.X) && !g.Outcome) || (bo.Op == token.LEQ && isMin(bo.X) && g.Outcome) {
+				okRet = true
+			}
+		}
+		if !okRet {
+			return false
+		}
+		found = true
+	}
+	return found
+}
+
 func callName(x *ssa.Call) string {
 	if f := x.Call.StaticCallee(); f != nil {
 		return ShortName(f)
@@ -550,6 +916,7 @@ func taintedInt(v ssa.Value, seen map[ssa.Value]bool) bool {
 // (then its callers are checked).
 func checkLineIndices(c *Ctx, rule string, scope func(*ssa.Function) bool) int {
 	ri := newRawIndex(c)
+	cmdLits = findCommands(c)
 	var rawNames []string
 	for p, w := range ri.raw {
 		rawNames = append(rawNames, ShortName(p.Parent())+"("+p.Name()+") -> "+w)
@@ -588,6 +955,11 @@ func checkLineIndices(c *Ctx, rule string, scope func(*ssa.Function) bool) int {
 				key := fmt.Sprintf("%s/%s(arg%d)#%d", ShortName(fn), name, i, ord[name])
 				ok, why := ri.sanitised(a, cs.Block(), map[ssa.Value]bool{})
 				if ok {
+					if lo, whyLo := nonNegative(a, cs.Block(), map[ssa.Value]bool{}); !lo {
+						ok, why = false, whyLo+": a negative line index"
+					}
+				}
+				if ok {
 					c.Pass(rule, key, c.Prog.Pos(cs.Pos()), "")
 				} else {
 					c.Fail(rule, key, c.Prog.Pos(cs.Pos()), why+" ("+ShortName(f)+" indexes with it at "+ri.raw[f.Params[i]]+"): an out-of-range value crashes the program")
@@ -622,6 +994,11 @@ func checkLineIndices(c *Ctx, rule string, scope func(*ssa.Function) bool) int {
 				ord["[]"]++
 				key := fmt.Sprintf("%s/index#%d", ShortName(fn), ord["[]"])
 				ok2, why := ri.sanitised(ia.Index, b, map[ssa.Value]bool{})
+				if ok2 {
+					if lo, whyLo := nonNegative(ia.Index, b, map[ssa.Value]bool{}); !lo {
+						ok2, why = false, whyLo+": a negative index crashes the program"
+					}
+				}
 				if ok2 {
 					c.Pass(rule, key, c.Prog.Pos(ia.Pos()), "")
 				} else {
